@@ -215,7 +215,116 @@ func genLuaGlobals() string {
 	fmt.Fprintf(&sb, "(* the borrower that returns its interpreter in %s: its functions, and the globals that Close removes *)\n", closeFn)
 	fmt.Fprintf(&sb, "Definition close_session_fns : list string := %s.\n", coqStrList(closeSession))
 	fmt.Fprintf(&sb, "Definition close_removes : list string := %s.\n", coqStrList(closeRemoves))
+	// every removal site: (function, (global, "defer" | "plain"))
+	sb.WriteString("\n(* every luaSetRawGlobals(... name: lua.LNil ...) site: (function, (global, deferred or a plain statement)) *)\n")
+	sb.WriteString("Definition global_removals : list (string * (string * string)) :=\n  [")
+	first := true
+	for _, t := range sites {
+		if !t.removal {
+			continue
+		}
+		kind := "plain"
+		if t.deferred {
+			kind = "defer"
+		}
+		ks := append([]string{}, t.keys...)
+		sort.Strings(ks)
+		for _, k := range ks {
+			if !first {
+				sb.WriteString(";\n   ")
+			}
+			first = false
+			fmt.Fprintf(&sb, "(%s, (%s, %s))", coqStr(t.fn), coqStr(k), coqStr(kind))
+		}
+	}
+	sb.WriteString("].\n\n")
+	// the functions that RUN Lua code on a borrowed interpreter (PCall)
+	var runners []string
+	for k, fd := range funcs {
+		if strings.HasPrefix(k, "lStatePool.") {
+			continue
+		}
+		if callsMethodDeep(fd.Body, "PCall") {
+			runners = append(runners, k)
+		}
+	}
+	sort.Strings(runners)
+	fmt.Fprintf(&sb, "(* functions that run Lua code on a borrowed interpreter (PCall) *)\nDefinition script_runners : list string := %s.\n", coqStrList(runners))
+	fmt.Fprintf(&sb, "(* names the __newindex guard of the global table lets a script create (it must refuse every name) *)\nDefinition newindex_passthrough : list string := %s.\n", coqStrList(newindexPassthrough()))
 	return sb.String()
+}
+
+// the __newindex handler installed on the global table in lStatePool.New: `lockNewGlobals := func(ls) int {
+// ls.RaiseError(...); return 0 }`. Any statement before the RaiseError is a way past the guard: a switch /
+// if on the name with string literals is recorded as a pass-through list, anything else is an unknown shape.
+func newindexPassthrough() []string {
+	fd := funcs["lStatePool.New"]
+	if fd == nil {
+		return nil
+	}
+	var lit *ast.FuncLit
+	ast.Inspect(fd.Body, func(n ast.Node) bool {
+		if as, ok := n.(*ast.AssignStmt); ok && len(as.Lhs) == 1 && len(as.Rhs) == 1 {
+			if id, ok := as.Lhs[0].(*ast.Ident); ok && id.Name == "lockNewGlobals" {
+				if fl, ok := as.Rhs[0].(*ast.FuncLit); ok {
+					lit = fl
+				}
+			}
+		}
+		return true
+	})
+	if lit == nil {
+		fail("lStatePool.New: the __newindex handler lockNewGlobals was not found")
+		return nil
+	}
+	// it must be the function installed as __newindex of the metatable of the globals
+	if !strings.Contains(exprText(fd.Body), `"__newindex" L NewFunction lockNewGlobals`) {
+		fail("lStatePool.New: lockNewGlobals is not installed as __newindex")
+	}
+	var names []string
+	raised := false
+	for _, st := range lit.Body.List {
+		switch x := st.(type) {
+		case *ast.ExprStmt:
+			if call, ok := x.X.(*ast.CallExpr); ok {
+				if sel, ok := call.Fun.(*ast.SelectorExpr); ok && sel.Sel.Name == "RaiseError" {
+					raised = true
+					continue
+				}
+			}
+			fail("lockNewGlobals %s: unknown statement", pos(st))
+		case *ast.ReturnStmt:
+			if !raised {
+				fail("lockNewGlobals %s: returns before refusing", pos(st))
+			}
+		case *ast.SwitchStmt:
+			if raised {
+				continue
+			}
+			for _, cc := range x.Body.List {
+				c := cc.(*ast.CaseClause)
+				if c.List == nil {
+					fail("lockNewGlobals %s: a default branch before the refusal", pos(c))
+				}
+				for _, e := range c.List {
+					if s, ok := strLit(e); ok {
+						names = append(names, s)
+					} else {
+						fail("lockNewGlobals %s: a case that is not a name literal", pos(e))
+					}
+				}
+			}
+		default:
+			if !raised {
+				fail("lockNewGlobals %s: a statement of unknown shape before the refusal", pos(st))
+			}
+		}
+	}
+	if !raised {
+		fail("lockNewGlobals: no RaiseError")
+	}
+	sort.Strings(names)
+	return names
 }
 
 // ---------- netServe reply blocks ----------
